@@ -129,7 +129,7 @@ designator(struct scope *s, struct initparser *p)
 			name = expect(TIDENT, "for member designator");
 			if (!findmember(p, name))
 				error(&tok.loc, "%s has no member named '%s'", t->kind == TYPEUNION ? "union" : "struct", name);
-			free(name);
+			/* do not free name: the token of a macro body shares it */
 			break;
 		default:
 			expect(TASSIGN, "after designator");
